@@ -890,9 +890,51 @@ func c15LocalsOfQueryCalls(w *core.Worker, i int) {
 	}
 }
 
+// c15ShadowAcrossKinds: a scalar function declared in an inner block under the name of an outer user-defined aggregate (and the other
+// way round). Inside the block the name means the inner object — a query calling it per record is an ordinary query, one calling
+// the aggregate collapses the rows — and after the block the outer one again.
+func c15ShadowAcrossKinds(w *core.Worker, i int) {
+	r := w.Rng(i, "kinds")
+	core.WriteFiles(w.Work, map[string]string{"items.csv": "n\n1\n2\n3\n"})
+	agg := "DECLARE f AGGREGATE (c) AS BEGIN VAR @s := 0; VAR @x; WHILE @x IN c DO @s := @s + @x; END WHILE; RETURN @s + 100; END;"
+	sca := "DECLARE f FUNCTION (@x) AS BEGIN RETURN @x * 2; END;"
+	for k := 0; k < 4; k++ {
+		blk := []string{"IF TRUE THEN\n%s\nEND IF;", "VAR @w := 0; WHILE @w < 1 DO\n@w := @w + 1;\n%s\nEND WHILE;", "CASE WHEN TRUE THEN\n%s\nEND CASE;", "DECLARE blk FUNCTION () AS BEGIN\n%s\nRETURN 0; END; VAR @r := blk();"}[r.Intn(4)]
+		outer, inner, wantIn, wantOut := agg, sca, "2 4 6", "106"
+		if r.Bool() {
+			outer, inner, wantIn, wantOut = sca, agg, "106", "2 4 6"
+		}
+		prog := "DECLARE log VIEW (tag, val); " + outer + "\n" + fmt.Sprintf(blk, inner+" INSERT INTO log SELECT 'in', f(n) FROM items;") + "\nINSERT INTO log SELECT 'out', f(n) FROM items;\nSELECT tag, val FROM log;"
+		s, err := core.NewSess(core.SessOpts{Dir: w.Work, Quiet: true})
+		if err != nil {
+			w.Inconclusive(err.Error())
+			return
+		}
+		res := s.Exec(prog)
+		s.Close()
+		var in, out []string
+		if res.Err == nil && len(res.Views) > 0 {
+			for _, row := range res.Views[len(res.Views)-1].Rows {
+				if row[0].S == "in" {
+					in = append(in, row[1].S)
+				} else {
+					out = append(out, row[1].S)
+				}
+			}
+		}
+		if res.Err != nil || strings.Join(in, " ") != wantIn || strings.Join(out, " ") != wantOut {
+			w.Violation("shadowing-across-function-kinds", fmt.Sprintf("inside the block the query reads [%s] (expected [%s]), after it [%s] (expected [%s]); error: %v\n%s", strings.Join(in, " "), wantIn, strings.Join(out, " "), wantOut, res.Err, prog), c15Replay{Program: prog, GotErr: fmt.Sprint(res.Err)})
+		}
+		w.Count("programs_shadowing_an_aggregate_by_a_function_or_back", 1)
+	}
+}
+
 func c15Case(w *core.Worker, i int) {
 	if i%40 == 9 {
 		c15LocalsOfQueryCalls(w, i)
+	}
+	if i%40 == 29 {
+		c15ShadowAcrossKinds(w, i)
 	}
 	r := w.Rng(i, "")
 	c15ViaQuery = i%3 == 1
